@@ -493,7 +493,38 @@ fn pair_case(ctx: &mut Ctx, wl: &str, case: u64, rng: &mut Rng) {
     }
     let (vo, vf) = (verdict_class(on.status), verdict_class(off.status));
     if vo != '-' && vf != '-' && vo != vf {
-        fails.push(("verdict_differs".into(), json!({"on": status_name(on.status), "off": status_name(off.status)})));
+        // a problem that is primal AND dual infeasible admits either verdict: accept a P/D pair only when both
+        // returned certificates hold up against the original data by their definitions
+        let mut both_certified = false;
+        let mut cert_detail = json!(null);
+        if (vo == 'P' && vf == 'D') || (vo == 'D' && vf == 'P') {
+            let cert = |r: &problem::SolveResult, st: &DefaultSettings<f64>| -> (bool, serde_json::Value) {
+                let pm = presolve_model(p, st, r, bound);
+                let ev = kkt::evaluate(p, &r.x, &r.s, &r.z, &pm.keep, bound, &pm.ceff);
+                if verdict_class(r.status) == 'P' {
+                    (ev.bz < 0.0 && ev.z_margin >= -1e-8 && ev.atz_norm <= 1e-5 * (-ev.bz) + ev.slack_atz, json!({"kind": "primal", "bz": ev.bz, "z_margin": ev.z_margin, "Atz_norm": ev.atz_norm}))
+                } else {
+                    (ev.qx < 0.0 && ev.s_margin >= -1e-8 && ev.px_norm.max(ev.axs_norm) <= 1e-5 * (-ev.qx) + ev.slack_px + ev.slack_axs, json!({"kind": "dual", "qx": ev.qx, "s_margin": ev.s_margin, "Px_norm": ev.px_norm, "Axs_norm": ev.axs_norm}))
+                }
+            };
+            let (a, da) = cert(&on, &st_on);
+            let (b, db) = cert(&off, &st_off);
+            both_certified = a && b;
+            cert_detail = json!({"on": da, "off": db});
+            if !b {
+                // the reference run (decomposition off) itself returned an infeasibility verdict whose
+                // certificate does not hold by definition (seen with literal 1e20 "bounds" and presolve off,
+                // where both runs stop after one iteration on 1e20-sized iterates): the reference is no
+                // oracle for this case; bogus certificates are C02's subject, not a decomposition defect
+                ctx.inconclusive("reference (decomposition off) verdict is an uncertified infeasibility claim", wl, case);
+                return;
+            }
+        }
+        if both_certified {
+            ctx.bump("primal_and_dual_infeasible_pairs_(either_verdict_valid)");
+        } else {
+            fails.push(("verdict_differs".into(), json!({"on": status_name(on.status), "off": status_name(off.status), "certificates": cert_detail})));
+        }
     }
     if on.status == SolverStatus::Solved && fails.is_empty() {
         // size-dependent relaxation: c(m) = 10 sqrt(#overlap entries + 1)
